@@ -153,3 +153,28 @@ func FuzzPLYRoundTrip(f *testing.F) {
 		t.Fatalf("C15/fuzz/ply-roundtrip: %v", err)
 	})
 }
+
+// TestCorpusToRecord converts the input go test saved after a fuzz worker died (VERIF_FUZZ_CORPUS_FILE) into a replay
+// record of the clause "C15/fuzz/ply-roundtrip" under VERIF_FUZZ_OUT, without running the oracle; the driver then
+// replays that record in a fresh process to decide whether the death reproduces.
+func TestCorpusToRecord(t *testing.T) {
+	path := os.Getenv("VERIF_FUZZ_CORPUS_FILE")
+	if path == "" {
+		t.Skip("driver helper")
+	}
+	data, err := kit.ReadFuzzCorpusBytes(path)
+	if err != nil {
+		t.Fatal(err)
+	}
+	if len(data) > 4096 {
+		t.Skip("input longer than the target accepts")
+	}
+	raw, _ := json.Marshal(decodePLYCase(data))
+	rec, _ := json.Marshal(map[string]any{"clause": "C15/fuzz/ply-roundtrip", "msg": "the fuzz worker process died on this input", "case": json.RawMessage(raw)})
+	dir := os.Getenv("VERIF_FUZZ_OUT")
+	os.MkdirAll(dir, 0o755)
+	name := fmt.Sprintf("crash-%x.json", sha1.Sum(raw))[:6+16] + ".json"
+	if err := os.WriteFile(filepath.Join(dir, name), rec, 0o644); err != nil {
+		t.Fatal(err)
+	}
+}
